@@ -18,7 +18,10 @@ def queries(tier):
                     bounds="one mpt_parse_data call: " + bd,
                     outside="option/section names and nesting (format layer: C08 query), partially quoted values, escaped quotes, the enc/sep styles, values beyond %d characters, tree building (node_append)" % n,
                     timeout=600, **COMMON))
-    qs.append(Q("option_line_readback", "C08/pre.c", harness_defines={"MODE": 3}, unwind_default=10, unwind={"memchr": 6, "verif_pm_add": 34},
-                bounds="one option line 'k' <0..2 blanks> '=' <0..1 blank> <0..1 value char from {a,b}> newline through mpt_parse_format_pre: name and value read back, blanks insignificant",
-                outside="longer names/values at the format layer (value scanner: value_plain/value_quoted), sections, nesting, other styles, tree building", timeout=600, **COMMON))
+    shapes = [(0, 0, 1), (2, 1, 1), (1, 0, 0), (2, 0, 1)] if tier == "quick" else [(x, y, z) for x in (0, 1, 2) for y in (0, 1) for z in (0, 1)]
+    for (nb, na, vl) in shapes:
+        qs.append(Q("option_line_b%d_a%d_v%d" % (nb, na, vl), "C08/pre.c", harness_defines={"MODE": 3, "NB": nb, "NA": na, "VL": vl}, unwind_default=10,
+                    unwind={"memchr": 6, "verif_pm_add": 34},
+                    bounds="option line 'k' + %d blank(s) + '=' + %d blank(s) + %d value character (symbolic a/b; second blank space or tab) + newline through mpt_parse_format_pre: name and value read back" % (nb, na, vl),
+                    outside="longer names/values at the format layer (value scanner: value_plain/value_quoted), sections, nesting, other styles, tree building", timeout=300, **COMMON))
     return qs
